@@ -225,6 +225,10 @@ static void do_hook_op(struct tctx *t, const char *line)
 		}
 		e = errno;
 		t->hdepth++;
+		if (getenv("H1_DEBUG_PROBE")) {
+			struct mcount_thread_data *mtdp = get_thread_data();
+			printf(" after=%u argbuf=%p", *(uint32_t *)((char *)mtdp->argbuf + (size_t)mtdp->idx * ARGBUF_SIZE), mtdp->argbuf);
+		}
 		printf(" rc=%d hij=%d errno=%s", rc, h->hijacked, e == 4242 ? "ok" : "BAD");
 		dump_new_records(t);
 		printf("\n");
